@@ -236,6 +236,112 @@ func c01(c *core.Check) {
 	c.Min("render-parses", 25)
 	c.Min("reserved-method-name", 8)
 	c01keywords(c)
+	c01qualifiers(c)
+}
+
+// c01qualifiers: every Go package qualifier the backend builds for another scope ("<pkg>." + name) must come from
+// the alias the import manager assigned to that include (Include.PackageName, or Scope.includeIDL which returns it):
+// only that name is imported by the file, so any other spelling of the package name is an undefined identifier as
+// soon as the import manager had to rename (two includes with the same package name, or a name like "context").
+func c01qualifiers(c *core.Check) {
+	pk := c.Prog.Pkg(golangRel)
+	info := pk.TypesInfo
+	allowedCall := map[string]bool{"includeIDL": true}
+	n := 0
+	for _, f := range pk.Syntax {
+		fname := c.Prog.Fset.File(f.Pos()).Name()
+		if strings.HasSuffix(fname, "frugal.go") {
+			continue // builds frugal type strings (struct tags), not Go qualifiers
+		}
+		for _, d := range f.Decls {
+			fd, ok := d.(*ast.FuncDecl)
+			if !ok || fd.Body == nil {
+				continue
+			}
+			// definitions of local variables (single := / = assignments)
+			defs := map[types.Object][]ast.Expr{}
+			ast.Inspect(fd.Body, func(nd ast.Node) bool {
+				if as, ok := nd.(*ast.AssignStmt); ok && len(as.Lhs) == len(as.Rhs) {
+					for i, l := range as.Lhs {
+						if o := rules.ObjOf(info, l); o != nil {
+							defs[o] = append(defs[o], as.Rhs[i])
+						}
+					}
+				}
+				if as, ok := nd.(*ast.AssignStmt); ok && len(as.Rhs) == 1 && len(as.Lhs) > 1 {
+					for _, l := range as.Lhs {
+						if o := rules.ObjOf(info, l); o != nil {
+							defs[o] = append(defs[o], as.Rhs[0])
+						}
+					}
+				}
+				return true
+			})
+			var fromAlias func(e ast.Expr, depth int) bool
+			fromAlias = func(e ast.Expr, depth int) bool {
+				if depth > 4 {
+					return false
+				}
+				switch x := ast.Unparen(e).(type) {
+				case *ast.SelectorExpr:
+					if fv := rules.FieldOf(info, x); fv != nil && fv.Name() == "PackageName" {
+						return true
+					}
+				case *ast.CallExpr:
+					if fn := rules.Callee(info, x); fn != nil && allowedCall[fn.Name()] {
+						return true
+					}
+				case *ast.Ident:
+					o := rules.ObjOf(info, x)
+					ds := defs[o]
+					if len(ds) == 0 {
+						return false
+					}
+					for _, d := range ds {
+						if !fromAlias(d, depth+1) {
+							return false
+						}
+					}
+					return true
+				}
+				return false
+			}
+			// concatenations that are call arguments (diagnostic names handed to helpers) are not qualifiers
+			argExprs := map[ast.Expr]bool{}
+			ast.Inspect(fd.Body, func(nd ast.Node) bool {
+				if call, ok := nd.(*ast.CallExpr); ok {
+					for _, a := range call.Args {
+						ast.Inspect(a, func(m ast.Node) bool {
+							if e, ok := m.(*ast.BinaryExpr); ok {
+								argExprs[e] = true
+							}
+							return true
+						})
+					}
+				}
+				return true
+			})
+			ast.Inspect(fd.Body, func(nd ast.Node) bool {
+				be, ok := nd.(*ast.BinaryExpr)
+				if !ok || be.Op != token.ADD || argExprs[be] {
+					return true
+				}
+				if s, ok := rules.ConstString(info, be.Y); !ok || s != "." {
+					return true
+				}
+				if tv, ok := info.Types[be.X]; !ok || tv.Value != nil {
+					return true
+				}
+				n++
+				key := fmt.Sprintf("%s/qualifier %s", core.FuncKey(golangRel, fd), rules.ExprString(be.X))
+				c.Decide(fromAlias(be.X, 0), "qualifier-is-import-alias", key, c.Prog.Rel(be.Pos()), "the qualifier is the include's import alias (Include.PackageName / includeIDL)",
+					"the package qualifier "+rules.ExprString(be.X)+" is not the alias under which the include is imported: generated code refers to an undefined package whenever the import manager renames the include")
+				return true
+			})
+		}
+	}
+	c.Analysed["qualifier_sites"] = n
+	c.Min("qualifier-is-import-alias", 3)
 }
 
 type sync2 struct{ mu chan struct{} }
